@@ -464,7 +464,7 @@ def history_cases(rng, n_hist, max_len):
                 break       # a state that already violates the invariant (reported by this step) is not carried on
             if nxt is not None and core.phys_stats(core.phys(nxt.chunked_array))["hidden_children"]:
                 # an out-of-domain argument that the library accepts (a list column offering values for a MISSING row) leaves
-                # records hidden under that row: the zone of the open finding KF-hidden-children, not carried on
+                # records hidden under that row (the zone of the former finding KF-hidden-children, repaired): not carried on
                 break
             if nxt is None or len(nxt) > 14 or len(nxt.chunked_array.type) > 4:
                 if nxt is None:
